@@ -203,12 +203,47 @@ func nonEmptyIndexed(c *Ctx, cms []cmp, site []ssa.Instruction) bool {
 	return n > 0
 }
 
-func peekLEQ(c *Ctx, cms []cmp, _ []ssa.Instruction) bool {
-	return hasCmp(cms, func(k cmp) bool { return lenOf(k.Y, "Client.peek") && k.Op == token.LEQ })
-}
+// guardExpand resolves a value through the phi choices of the path a guard
+// is being verified on (set by pan1 before each call of a guard).
+var guardExpand = func(v ssa.Value) ssa.Value { return v }
 
-func peekGEQ(c *Ctx, cms []cmp, _ []ssa.Instruction) bool {
-	return hasCmp(cms, func(k cmp) bool { return lenOf(k.X, "Client.peek") && k.Op == token.GEQ && !isK(k.Y, 2) })
+// peekWithin: every slicing of c.peek at the site, c.peek[lo:hi] or
+// c.peek[lo:], lies behind a comparison that bounds exactly its upper end
+// (hi, or lo when hi is absent) plus extra by len(c.peek) — the same value,
+// not just any comparison with the length.
+func peekWithin(extra int64) func(c *Ctx, cms []cmp, site []ssa.Instruction) bool {
+	return func(c *Ctx, cms []cmp, site []ssa.Instruction) bool {
+		n := 0
+		for _, ins := range site {
+			sl, ok := ins.(*ssa.Slice)
+			if !ok || roleKey(sl.X) != "Client.peek" {
+				continue
+			}
+			base := sl.High
+			if base == nil {
+				base = sl.Low
+			}
+			if base == nil {
+				continue
+			}
+			n++
+			base = guardExpand(stripConv(base))
+			if !hasCmp(cms, func(k cmp) bool {
+				if !lenOf(k.Y, "Client.peek") || (k.Op != token.LEQ && k.Op != token.LSS && k.Op != token.EQL) {
+					return false
+				}
+				x := guardExpand(stripConv(k.X))
+				if extra == 0 {
+					return sameValue(x, base)
+				}
+				bo, ok := x.(*ssa.BinOp)
+				return ok && bo.Op == token.ADD && isK(bo.Y, extra) && sameValue(guardExpand(stripConv(bo.X)), base)
+			}) {
+				return false
+			}
+		}
+		return n > 0
+	}
 }
 
 func loopLSS(c *Ctx, cms []cmp, _ []ssa.Instruction) bool {
@@ -226,10 +261,10 @@ var bceTable = []bceRow{
 		guard: func(c *Ctx, cms []cmp, _ []ssa.Instruction) bool {
 			return hasCmp(cms, func(k cmp) bool { return lenOf(k.X, "Client.pendingAck") && k.Op == token.NEQ && isK(k.Y, 0) })
 		}},
-	{fn: "(*Client).onPUBLISH", kind: "IsSliceInBounds", expr: "‹*Client›.peek[2:‹int›]", reason: "behind i ≤ len(c.peek); i = 2 + uint16 ≥ 2", guard: peekLEQ},
-	{fn: "(*Client).onPUBLISH", kind: "IsInBounds", expr: "binary.BigEndian.Uint16(‹*Client›.peek[‹int›:])", reason: "behind len(c.peek) ≥ i+2", guard: peekGEQ},
-	{fn: "(*Client).onPUBLISH", kind: "IsInBounds", expr: "uint(binary.BigEndian.Uint16(‹*Client›.peek[‹int›:]))", reason: "behind len(c.peek) ≥ i+2", guard: peekGEQ},
-	{fn: "(*Client).onPUBLISH", kind: "IsSliceInBounds", expr: "‹*Client›.peek[‹int›:]", reason: "i ≤ len(c.peek) from the topic test, respectively i+2 ≤ len(c.peek) before i += 2", guard: peekLEQ},
+	{fn: "(*Client).onPUBLISH", kind: "IsSliceInBounds", expr: "‹*Client›.peek[2:‹int›]", reason: "behind i ≤ len(c.peek); i = 2 + uint16 ≥ 2", guard: peekWithin(0)},
+	{fn: "(*Client).onPUBLISH", kind: "IsInBounds", expr: "binary.BigEndian.Uint16(‹*Client›.peek[‹int›:])", reason: "behind len(c.peek) ≥ i+2", guard: peekWithin(2)},
+	{fn: "(*Client).onPUBLISH", kind: "IsInBounds", expr: "uint(binary.BigEndian.Uint16(‹*Client›.peek[‹int›:]))", reason: "behind len(c.peek) ≥ i+2", guard: peekWithin(2)},
+	{fn: "(*Client).onPUBLISH", kind: "IsSliceInBounds", expr: "‹*Client›.peek[‹int›:]", reason: "i ≤ len(c.peek) from the topic test, respectively i+2 ≤ len(c.peek) before i += 2", guard: peekWithin(0)},
 	{fn: "(*volatile).Save", kind: "IsSliceInBounds", expr: "‹[]byte›[‹int›:]", reason: "the offset is the sum of the lengths copied so far and the destination was made with the sum of all lengths"},
 	{fn: "(*Client).applySeqNoAndEnqueue", kind: "IsInBounds", expr: "‹Buffers›[0]", reason: "submitPersisted is only called with the two-element net.Buffers of publishPacket (checked: every call site)"},
 	{fn: "(*Client).applySeqNoAndEnqueue", kind: "IsSliceInBounds", expr: "‹[]byte›[‹int›:]", reason: "the first buffer is the header built by publishPacket with a packet identifier: it ends in the two identifier bytes, so len-2 ≥ 0"},
@@ -335,6 +370,17 @@ func (c *Ctx) pan1() {
 						seen++
 						// facts established up to the end of the block's entry; loop headers carry their own condition
 						upto := p.BlockEv[j]
+						choice := phiChoices(p, fn)
+						guardExpand = func(v ssa.Value) ssa.Value {
+							for d := 0; d < 20; d++ {
+								phi, isPhi := v.(*ssa.Phi)
+								if !isPhi || choice[phi] == nil {
+									break
+								}
+								v = stripConv(choice[phi])
+							}
+							return v
+						}
 						if !row.guard(c, assumed(p, 0, upto), indexInstrsOnLine(c, b, s.Line)) {
 							okAll = false
 							failP, failI = p, upto
